@@ -246,6 +246,28 @@ theorem auto_shutdown_sound (g : Graph) (s : State)
     rw [this, hst, f1, hstop] at hauto
     exact absurd hauto (by simp)
 
+/-- **Full converse** ("… and only once nothing at or before the stop point remains"): whenever a main loop of a
+run shuts down automatically — not for the stop task — every pooled proxy at or before the stop point has a
+final status. -/
+def auto_shutdown_full : Prop :=
+  ∀ (g : Graph) (ops : List Op), ∀ s ∈ run g ops, ∀ sp, s.stopPoint = some sp → s.stop = none → s.stopMode = none →
+    ¬ (s.stopTask.isSome = true ∧ s.stopTaskFinished = true) → (mainLoop g s).stop = some "AUTOMATIC" →
+    ((mainLoop g s).pool.all fun x => !(decide (x.pt ≤ sp)) || x.status.isFinal) = true
+
+/-- the witness: `cylc stop 0` caps the runahead limit at 0 and puts 1/a back under it; `cylc stop 3` raises the
+stop point again but the limit is not recomputed (the base point has not changed), so 1/a stays
+runahead-limited, nothing blocks the shutdown check and the workflow shuts down with 1/a and 2/a never run -/
+def exOpsStale : List Op := [.stopPoint 0, .stopPoint 3]
+
+/-- **The full converse is false** for the model (and for cylc-flow: findings/C43.json `stale-runahead-limit`):
+after the stop point was lowered below the pool and raised again the runahead limit stays at the old stop
+point; the tasks in between never run and the workflow "completes". `auto_shutdown_sound` is what holds. -/
+theorem auto_shutdown_counterexample : ¬ auto_shutdown_full := by
+  intro h
+  have := h exGraphP0 exOpsStale _ (mem_run_last exGraphP0 exOpsStale) 3 (by decide) (by decide) (by decide)
+    (by decide) (by decide)
+  exact absurd this (by decide)
+
 -- non-vacuity: `cylc stop 0` (a stop point before the first cycle): 1/a (and 2/a) are put back under the runahead
 -- limit, nothing at or before the stop point remains, the next main loop shuts down and clears the DB row
 def exOpsReach : List Op := [.stopPoint 0]
